@@ -245,6 +245,79 @@ def rule_closed(c, prog, d):
             c.violation(R, f"xml|{vk}", f"default values of type {vk} exist (e.g. {example}) but write_value_xml has no arm for it", w.sp, instance=f"xml:{vk}")
 
 
+def rule_xref(c, prog, d):
+    R = "C16.xref"
+    c.rule(R, "the second copy of the reflection database shipped in the tree (rbx_dom_lua/src/database.json, consumed by the Lua implementation) describes the same classes, property kinds, alias targets, serialization links and data types as database.msgpack — both are generated from one dump, so a hand edit of either shows up as a disagreement")
+    import json
+    import os
+    path = os.path.join(core.REPO, "rbx_dom_lua", "src", "database.json")
+    try:
+        with open(path) as fh:
+            j = json.load(fh)
+    except OSError:
+        raise core.AnchorMissing("rbx_dom_lua/src/database.json")
+    jc = j.get("Classes", {})
+    if j.get("Version") == d.version:
+        c.ok(R, "version")
+    else:
+        c.violation(R, "version", f"database.json is version {j.get('Version')}, database.msgpack {d.version}", "rbx_dom_lua/src/database.json", instance="version")
+    if set(jc) == set(d.classes):
+        c.ok(R, "class-set")
+    else:
+        diff = sorted(set(jc) ^ set(d.classes))[:5]
+        c.violation(R, "class-set", f"the two databases list different classes, e.g. {diff}", "rbx_dom_lua/src/database.json", instance="class-set")
+    n = 0
+    for ck in sorted(set(jc) & set(d.classes)):
+        cl = d.classes[ck]
+        jcl = jc[ck]
+        if jcl.get("Superclass") != cl.superclass:
+            c.violation(R, f"superclass|{ck}", f"{ck}: superclass {cl.superclass} in msgpack, {jcl.get('Superclass')} in database.json", "rbx_dom_lua/src/database.json", instance=f"superclass:{ck}")
+        jp = jcl.get("Properties", {})
+        if set(jp) != set(cl.props):
+            c.violation(R, f"props|{ck}", f"{ck}: property sets differ: {sorted(set(jp) ^ set(cl.props))[:5]}", "rbx_dom_lua/src/database.json", instance=f"props:{ck}")
+        for pk in sorted(set(jp) & set(cl.props)):
+            n += 1
+            p_ = cl.props[pk]
+            q = jp[pk]
+            kind = q.get("Kind", {})
+            (kk, kv), = list(kind.items()) if isinstance(kind, dict) else [(kind, None)]
+            j_alias = kv.get("AliasFor") if kk == "Alias" else None
+            j_ser = j_ser_as = j_mig = None
+            if kk == "Canonical":
+                sv = kv.get("Serialization")
+                if isinstance(sv, str):
+                    j_ser = sv
+                else:
+                    (j_ser, payload_), = list(sv.items())
+                    if j_ser == "SerializesAs":
+                        j_ser_as = payload_
+                    elif j_ser == "Migrate":
+                        j_mig = (payload_.get("To"), payload_.get("Migration"))
+            dt = q.get("DataType", {})
+            (dk, dv), = list(dt.items())
+            same = (kk == p_.kind and j_alias == p_.alias_for and j_ser == p_.ser and j_ser_as == p_.ser_as and (j_mig is None or j_mig == (p_.migrate_to, p_.migrate_op)) and (dk, dv) == (p_.dtype_kind, p_.dtype))
+            if same:
+                c.ok(R, None)
+            else:
+                c.violation(R, f"descriptor|{ck}.{pk}", f"{ck}.{pk}: database.msgpack says kind={p_.kind} alias_for={p_.alias_for} serialization={p_.ser}/{p_.ser_as} type={p_.dtype_kind}:{p_.dtype}; database.json says kind={kk} alias_for={j_alias} serialization={j_ser}/{j_ser_as} type={dk}:{dv} — one of the two copies was edited by hand", "rbx_reflection_database/database.msgpack", instance=f"descriptor:{ck}.{pk}")
+        jd = jcl.get("DefaultProperties", {})
+        if set(jd) != set(cl.defaults):
+            c.violation(R, f"defaults|{ck}", f"{ck}: default-property sets differ: {sorted(set(jd) ^ set(cl.defaults))[:5]}", "rbx_dom_lua/src/database.json", instance=f"defaults:{ck}")
+        else:
+            for dk_, (vk, _) in cl.defaults.items():
+                (jvk, _), = list(jd[dk_].items())
+                if jvk != vk:
+                    c.violation(R, f"default-type|{ck}.{dk_}", f"default {ck}.{dk_} is a {vk} in msgpack and a {jvk} in database.json", "rbx_dom_lua/src/database.json", instance=f"default:{ck}.{dk_}")
+    c.rules[R]["instances"].add("descriptors")
+    c.floor(R, n, 3000, "descriptors cross-checked")
+    je = j.get("Enums", {})
+    bad = [k for k in set(je) | set(d.enums) if k not in je or k not in d.enums or dict(je[k].get("items", je[k].get("Items", {}))) != d.enums[k][1]]
+    if not bad:
+        c.ok(R, "enums")
+    else:
+        c.violation(R, "enums|" + ",".join(sorted(bad)[:3]), f"enum tables differ between the two databases for {sorted(bad)[:5]}", "rbx_dom_lua/src/database.json", instance="enums")
+
+
 def run(c, prog):
     d = dbm.Database()
     c.analysed["database"] = {"classes": len(d.classes), "properties": sum(len(x.props) for x in d.classes.values()), "enums": len(d.enums),
@@ -253,4 +326,7 @@ def run(c, prog):
     rule_oblig(c, prog, results)
     rule_load(c, prog)
     rule_closed(c, prog, d)
+    rule_xref(c, prog, d)
+    from . import C06
+    C06.rule_desc(core.Alias(c, "C16"), prog)
     c.not_decided += ["`written and read back unchanged by both formats` (a run)", "future databases (the check reads whatever database is in the tree)"]
